@@ -63,26 +63,29 @@ def seqOk : List (SName × Stage) → List (SName × Nat × Nat) → Option Nat 
 
 def cSequential (p : Prog) (t : Trace) : Bool := seqOk (path p) t.stages (some 0)
 
-/-- the stages that ran, with their start times -/
-def ran (p : Prog) (t : Trace) : List (Stage × Nat) :=
-  ((path p).zip t.stages).map fun x => (x.1.2, x.2.2.1)
+/-- the stages that ran (the log is a prefix of the path) -/
+def ranStages (p : Prog) (t : Trace) : List Stage := ((path p).take t.stages.length).map (·.2)
 
 def complete (p : Prog) (t : Trace) : Bool := t.stages.length == (path p).length
+
+/-- the instant at which the last stage that ran is over, by the observed start times (`none` = never; the
+initial value is returned if nothing ran) -/
+def overAt : Option Nat → List (SName × Stage) → List (SName × Nat × Nat) → Option Nat
+  | e, [], _ => e
+  | e, _ :: _, [] => e
+  | _, (_, st) :: path, (_, t, _) :: log => overAt ((delayOf st.beh).map (t + ·)) path log
 
 /-- the last Deferred fired strictly before the timeout and not after a stop request — or no stage returned a
 Deferred at all (then the chain is over before the reactor starts) -/
 def lastInTime (p : Prog) (t : Trace) : Bool :=
-  (ran p t).all (fun x => isSync x.1.beh) ||
-  match (ran p t).getLast? with
-  | some (st, start) =>
-    (match delayOf st.beh with
-     | some d => decide (start + d < p.timeout) && p.stops.all (fun s => decide (start + d ≤ s))
-     | none => false)
+  (ranStages p t).all (fun st => isSync st.beh) ||
+  match overAt (some 0) (path p) t.stages with
+  | some over => decide (over < p.timeout) && p.stops.all (fun s => decide (over ≤ s))
   | none => false
 
 def inTime (p : Prog) (t : Trace) : Bool := complete p t && lastInTime p t
 
-def sidesRan (p : Prog) (t : Trace) : List Side := ((ran p t).map (·.1.sides)).flatten
+def sidesRan (p : Prog) (t : Trace) : List Side := ((ranStages p t).map (·.sides)).flatten
 
 def loggedLeft (sides : List Side) : Nat :=
   sides.foldl (fun n s => match s with | .logerr => n + 1 | .flush => 0 | _ => n) 0
@@ -91,7 +94,7 @@ def loggedLeft (sides : List Side) : Nat :=
 Deferred dropped ∧ nothing left scheduled (∧ no failed expectation) -/
 def cSuccessIff (p : Prog) (t : Trace) : Bool :=
   (outcome t == some .success) ==
-    (inTime p t && (ran p t).all (fun x => behOk x.1.beh) && !(sidesRan p t).contains .expect
+    (inTime p t && (ranStages p t).all (fun st => behOk st.beh) && !(sidesRan p t).contains .expect
       && loggedLeft (sidesRan p t) == 0 && !(sidesRan p t).contains .dropfailed && t.leftover == 0)
 
 /-- not in time ⇒ error; the result is asked to stop exactly when the run was ended by an interrupt -/
